@@ -362,7 +362,10 @@ fn step_accesses(step: &Step, w: WarpId, scope: &NodeId, prev_from: &dyn Fn(&Edg
             if with_prev {
                 if let Some(old) = prev_from(&ids::edge(*e)) {
                     if old != nid(*from, scope) {
+                        // a migration is recorded as DeleteEdge(old from) + UpsertEdge: the previous
+                        // source's adjacency and (through the delete's cascade) the edge attachment slot
                         out.push(Access::NWrite(old));
+                        out.push(Access::AWrite(beta(w, ids::edge(*e))));
                     }
                 }
             }
